@@ -614,6 +614,10 @@ class Engine:
         targets = rng.sample(pool, len(labs))
         m = [[l, t] for l, t in zip(labs, targets)]
         # total maps may also cover labels that do not occur
+        if rng.random() < 0.3:
+            unused = [x for x in pool if x not in labs and x not in targets]
+            if unused:
+                m.append([rng.choice(unused), rng.choice(pool)])
         return m
 
     def _gen_derive(self, rng, world):
